@@ -207,10 +207,18 @@ def checkStrides (fm : FM) (s : Shape3) : Except Err Unit := do
     checkSize s.height fm.dtype.bytes
     checkSize s.width fm.dtype.bytes
 
+/-- `for addr in addresses: check_alignment(addr, required_alignment)` -/
+def checkAllAligned (required : Int) : List Int → Except Err Unit
+  | [] => .ok ()
+  | a :: rest =>
+    match checkAlignment a required with
+    | .error e => .error e
+    | .ok () => checkAllAligned required rest
+
 /-- `generate_addresses` (with `check_addresses`) -/
 def genAddresses (arch : Arch) (regs : List Reg1) (fm : FM) : Prog := do
   let required := if fm.nhcwb16 then arch.nhcwb16Align else fm.dtype.bytes
-  fm.addresses.forM (checkAlignment · required)
+  checkAllAligned required fm.addresses
   match regs, fm.addresses with
   | [r0, r1, r2, r3], a0 :: a1 :: a2 :: a3 :: _ =>
     .ok [.addr r0 a0, .addr r1 a1, .addr r2 a2, .addr r3 a3]
@@ -499,10 +507,25 @@ def opItems (arch : Arch) (op : Op) : Except Err (List Item) := do
 
 def stopItem : Item := .doOp OpCode.stop.code 0xFFFF
 
-def program (arch : Arch) (ops : List Op) : Except Err (List Item) := do
-  let body ← ops.mapM (opItems arch)
-  let pre := if arch.isU65 then [Item.set0 Reg0.parallelMode.code ((arch.ncores : Int) - 1)] else []
-  .ok (pre ++ body.flatten ++ [stopItem])
+/-- the `for op_index, npu_op in enumerate(npu_op_list)` loop (stops at the first operation that raises) -/
+def bodyItems (arch : Arch) : List Op → Except Err (List Item)
+  | [] => .ok []
+  | op :: rest =>
+    match opItems arch op with
+    | .error e => .error e
+    | .ok a =>
+      match bodyItems arch rest with
+      | .error e => .error e
+      | .ok b => .ok (a ++ b)
+
+/-- `NPU_SET_PARALLEL_MODE` is written first on Ethos-U65 -/
+def preItems (arch : Arch) : List Item :=
+  if arch.isU65 then [Item.set0 Reg0.parallelMode.code ((arch.ncores : Int) - 1)] else []
+
+def program (arch : Arch) (ops : List Op) : Except Err (List Item) :=
+  match bodyItems arch ops with
+  | .error e => .error e
+  | .ok body => .ok (preItems arch ++ body ++ [stopItem])
 
 /-- `get_reg_machine` as a function of (cmd0/cmd1, opcode number), from the regenerated table -/
 def selGen (c1 : Bool) (code : Nat) : Bool :=
